@@ -2,9 +2,19 @@
 C13 layout generator + renderer (layout -> real Python source tree) + rank simulation.
 
 A layout (JSON-able) is
-  dir    = {"name", "mods": [module], "dirs": [dir], "noise": bool}
-  module = {"stem", "info": None | {"name","desc","tags","props","links","xrank","vis"}, "broken": None|"raise"|"syntax",
+  dir    = {"name", "mods": [module], "dirs": [dir], "noise": bool, "drops": [drop] (optional)}
+  module = {"stem", "info": None | {"name","desc","tags","props","links","xrank","vis"},
+            "broken": None|"raise"|"syntax"|"binary"|"dangling"|"isdir"  (the last three: `<stem>.py` is binary garbage / a dangling
+            symbolic link / a directory — the directory scan looks at the name only, so the import fails),
             "tests": [test], "classes": [cls]}
+  drop   = {"name": <file name>, "kind": <label>, "body": "module"|"text"|"binary"|"dangling", "mod": module | None}
+           a *dropping*: a directory entry that is NOT a suite module by its name (dot-prefixed, `__`-prefixed, not ending in
+           `.py`): hidden drafts `.alpha_draft.py` (valid modules with tests), Emacs lock files `.#alpha.py` (dangling symbolic
+           links), AppleDouble `._alpha.py` (binary), backups `alpha.py~` / `#alpha.py#`, `alpha.pyc`, `alpha.PY`, `__init__.py`,
+           `.py`, text files.  Every dropping holding Python source writes its path to $LCCV_IMPORT_LOG when imported.
+           Directories nobody declared (`.git`, `__pycache__`, `.x_wip`: no accepted module inside) are ordinary `dirs` entries
+           with `mods: []`; a hidden directory WITH modules is a declared directory like any other (the loader does not filter
+           directory names).
   cls    = {"attr","pos","name","desc","xrank","tags","props","links","vis","disabled","ctor_fails","tests","subs"}
   test   = {"attr","pos","name","desc","tags","props","links","vis","disabled",
             "param": None | {"sets": [[[k, v], ...], ...], "naming": None | {"name": [seg], "desc": [seg]}, "style": "dict"|"csv"|"csvtuple"}}
@@ -29,6 +39,11 @@ TEST_ATTRS = ["test_a", "test_b", "test_c", "check_d", "test_E_Upper", "t_f", "t
 CLS_ATTRS = ["SuiteA", "suite_b", "Inner_C", "zeta", "alpha", "Mid_d", "Beta_e"]
 STEMS = ["mod_a", "mod_b", "suite_c", "zz_mod", "aa_mod", "foo", "bar", "Baz_Q"]
 DIR_ONLY = ["only_dir", "aa_dir", "zz_dir", "Dir_X"]
+# file stems that are not Python identifiers: several dots, a single leading underscore, `.py` inside, spaces, dashes
+ODD_STEMS = ["a.b", "mod_a.v2", "_private", "x.py", "with space", "mod-a", "foo.bar", "_", "a..b", "Baz_Q.test"]
+# directories that tools create inside a suites directory (never hold an accepted module here)
+JUNK_DIRS = [".git", "__pycache__", ".idea", ".pytest_cache", ".mod_a_wip", "__snapshots__", ".~lock"]
+HIDDEN_DIRS = [".wip_suites", ".more", "__extra"]
 TAGS = ["slow", "fast", "db", "täg", "x y"]
 PKEYS = ["i", "j", "k"]
 
@@ -285,10 +300,12 @@ def gen_module(rng, stem, uniq):
     if kind in ("classes", "mixed"):
         m["classes"] = [gen_cls(rng, a, 1, uniq) for a in rng.sample(CLS_ATTRS, rng.choice([1, 1, 2]))]
     if kind in ("collapse", "nearcollapse"):
-        c = gen_cls(rng, stem, 1, uniq)
+        c = gen_cls(rng, stem if stem.isidentifier() else "Klass", 1, uniq)
         if rng.random() < 0.8:
             c["vis"] = None
-        if rng.random() < 0.15:                       # a class of another Python name *named* like the module
+        if not stem.isidentifier():
+            c["name"] = stem
+        elif rng.random() < 0.15:                     # a class of another Python name *named* like the module
             c["attr"] = "Klass"
             c["name"] = stem
         m["classes"] = [c]
@@ -326,11 +343,112 @@ def gen_module(rng, stem, uniq):
     return m
 
 
+def scan_accepts(name):
+    """The layout's OWN notion of "this directory entry is a suite module" (oracle side; written from the documentation:
+    suite modules are the `*.py` files of the directory, hidden files and `__*.py` excepted).  Not the loader, not the model."""
+    return len(name) >= 3 and name[-3:] == ".py" and name[:1] != "." and name[:2] != "__"
+
+
+DROP_KINDS = ["hidden-draft", "hidden-draft", "hidden-twin", "lock-symlink", "appledouble", "backup-tilde", "autosave", "backup-ext",
+              "pyc", "upper-ext", "dunder-file", "non-py", "only-ext", "hidden-junk"]
+
+
+def _drop_module(rng, uniq):
+    """a small valid module with visible tests (what a draft / backup of a suite module contains)"""
+    m = {"stem": "", "info": None, "broken": None, "classes": [],
+         "tests": [_plain_test("drop_t%d" % uniq(), i) for i in range(rng.choice([1, 1, 2]))]}
+    if rng.random() < 0.3:
+        c = {"attr": "DropSuite", "pos": len(m["tests"]), "name": None, "desc": None, "xrank": None, "vis": None, "disabled": None,
+             "ctor_fails": False, "tests": [_plain_test("drop_m%d" % uniq(), 0)], "subs": [], "tags": [], "props": [], "links": []}
+        m["classes"] = [c]
+    if rng.random() < 0.15:
+        m["broken"] = "raise"            # a half-written draft: importing it would raise
+    return m
+
+
+def _plain_test(attr, pos):
+    return {"attr": attr, "pos": pos, "name": None, "desc": None, "vis": None, "disabled": None, "param": None,
+            "tags": [], "props": [], "links": []}
+
+
+def gen_drop(rng, stems, uniq, kind=None):
+    """one dropping next to the modules `stems` of a directory"""
+    kind = kind or rng.choice(DROP_KINDS)
+    x = rng.choice(stems) if stems and rng.random() < 0.75 else rng.choice(["alpha", "beta", "tmp", "a.b"])
+    body, mod = "module", None
+    if kind == "hidden-draft":
+        name = ".%s_%s.py" % (x, rng.choice(["draft", "wip", "old"]))
+    elif kind == "hidden-twin":
+        name = ".%s.py" % x
+    elif kind == "lock-symlink":
+        name, body = ".#%s.py" % x, "dangling"
+    elif kind == "appledouble":
+        name, body = "._%s.py" % x, "binary"
+    elif kind == "backup-tilde":
+        name = "%s.py~" % x
+    elif kind == "autosave":
+        name = "#%s.py#" % x
+    elif kind == "backup-ext":
+        name = x + rng.choice([".py.bak", ".py.orig", ".py.swp", ".py_", ".py "])
+    elif kind == "pyc":
+        name, body = x + rng.choice([".pyc", ".pyo", ".cpython-312.pyc"]), rng.choice(["binary", "module"])
+    elif kind == "upper-ext":
+        name = x + rng.choice([".PY", ".Py", ".pY"])
+    elif kind == "dunder-file":
+        name = rng.choice(["__init__.py", "__main__.py", "__%s.py" % x, "__%s__.py" % x, "___.py"])
+    elif kind == "non-py":
+        name, body = rng.choice(["notes.txt", "README", x + ".pyi", x + "py", x + ".txt", "conftest.cfg", x + ".p", ".gitignore"]), \
+            rng.choice(["text", "module"])
+    elif kind == "only-ext":
+        name = ".py"
+    elif kind == "hidden-junk":
+        name, body = rng.choice([".%s.py.swp" % x, ".DS_Store", ".%s.py~" % x]), rng.choice(["binary", "text"])
+    else:
+        raise ValueError(kind)
+    assert not scan_accepts(name), name
+    if body == "module":
+        mod = _drop_module(rng, uniq)
+    return {"name": name, "kind": kind, "body": body, "mod": mod}
+
+
+def gen_drops(rng, stems, uniq, p=0.4):
+    if rng.random() >= p:
+        return []
+    out, seen = [], set()
+    for _ in range(rng.choice([1, 1, 2, 3])):
+        dr = gen_drop(rng, stems, uniq)
+        if dr["name"] not in seen:
+            seen.add(dr["name"])
+            out.append(dr)
+    return out
+
+
+def gen_junk_dir(rng, uniq):
+    """a directory tools leave in a suites directory: nothing in it is a suite module"""
+    name = rng.choice(JUNK_DIRS)
+    d = {"name": name, "mods": [], "dirs": [], "noise": False, "drops": []}
+    if name == "__pycache__":
+        d["drops"] = [{"name": "mod_a.cpython-312.pyc", "kind": "pyc", "body": "binary", "mod": None}]
+    elif name == ".git":
+        d["drops"] = [{"name": "config", "kind": "non-py", "body": "text", "mod": None}]
+        if rng.random() < 0.5:
+            d["dirs"] = [{"name": "hooks", "mods": [], "dirs": [], "noise": False,
+                          "drops": [gen_drop(rng, ["pre_commit"], uniq, rng.choice(["backup-ext", "dunder-file", "hidden-draft"]))]}]
+    else:
+        d["drops"] = [gen_drop(rng, [], uniq) for _ in range(rng.choice([0, 1, 2]))]
+        names = set()
+        d["drops"] = [x for x in d["drops"] if not (x["name"] in names or names.add(x["name"]))]
+    return d
+
+
 def gen_dir(rng, name, depth, uniq):
     d = {"name": name, "mods": [], "dirs": [], "noise": rng.random() < 0.2}
     nm = rng.choice([1, 2, 2, 3]) if depth == 0 else rng.choice([0, 1, 1, 2])
     stems = rng.sample(STEMS, nm)
+    if stems and rng.random() < 0.12:
+        stems[rng.randrange(len(stems))] = rng.choice(ODD_STEMS)
     d["mods"] = [gen_module(rng, s, uniq) for s in sorted(stems)]
+    d["drops"] = gen_drops(rng, stems, uniq)
     if depth < 2:
         nd = rng.choice([0, 1, 1, 2]) if depth == 0 else rng.choice([0, 0, 1])
         names = []
@@ -339,9 +457,18 @@ def gen_dir(rng, name, depth, uniq):
                 cand = rng.choice(stems)
             else:
                 cand = rng.choice(DIR_ONLY)
+            if cand.endswith(".py"):
+                continue                 # a directory named `x.py` is itself matched by the scan (see "isdir")
             if cand not in names:
                 names.append(cand)
+        if rng.random() < 0.05:
+            names.append(rng.choice(HIDDEN_DIRS))   # a hidden directory WITH modules: a declared directory like any other
         d["dirs"] = [gen_dir(rng, n, depth + 1, uniq) for n in sorted(names)]
+    if rng.random() < 0.2:
+        j = gen_junk_dir(rng, uniq)
+        if j["name"] not in [x["name"] for x in d["dirs"]]:
+            d["dirs"].append(j)
+            d["dirs"].sort(key=lambda x: x["name"])
     return d
 
 
@@ -473,7 +600,8 @@ def mutate(rng, layout):
         return kind
     if kind == "broken":
         mods = [b[3] for b in bodies if b[2] == "module"]
-        rng.choice(mods)["broken"] = rng.choice(["raise", "syntax"])
+        # the last three: an entry the directory scan accepts by its NAME that is not a Python source at all
+        rng.choice(mods)["broken"] = rng.choice(["raise", "syntax", "raise", "syntax", "binary", "dangling", "isdir"])
         return kind
     if kind == "ctor":
         cl = [b[3] for b in bodies if b[2] == "class"]
@@ -529,14 +657,16 @@ def with_ranks(layout, entry="dir", pick=None):
         m["auto_rank"] = nxt()
 
     def directory(d):
-        for m in sorted(d["mods"], key=lambda m: m["stem"]):
+        # get_py_files_from_dir sorts the PATHS: file-name order (`a.b.py` < `a.py` although "a" < "a.b")
+        for m in sorted(d["mods"], key=lambda m: m["stem"] + ".py"):
             file(m)
         for s in sorted(d["dirs"], key=lambda s: s["name"]):
             directory(s)
 
     # everything gets *some* rank so that the layout is total; what is not imported keeps rank 0
     def zero(d):
-        for m in d["mods"]:
+        # droppings are not imported: they consume no rank
+        for m in d["mods"] + [x["mod"] for x in d.get("drops") or [] if x.get("mod")]:
             m.setdefault("auto_rank", 0)
 
             def z(c):
@@ -555,7 +685,7 @@ def with_ranks(layout, entry="dir", pick=None):
     if entry == "dir":
         directory(lay)
     elif entry == "files":
-        for m in sorted(lay["mods"], key=lambda m: m["stem"]):
+        for m in sorted(lay["mods"], key=lambda m: m["stem"] + ".py"):
             file(m)
     elif entry == "file":
         file([m for m in lay["mods"] if m["stem"] == pick][0])
@@ -802,9 +932,32 @@ def module_src(m):
     return "\n".join(lines) + "\n"
 
 
+IMPORT_MARKER = ("import os as _lccv_os\n"
+                 "with open(_lccv_os.environ.get('LCCV_IMPORT_LOG') or _lccv_os.devnull, 'a') as _lccv_fh:\n"
+                 "    _lccv_fh.write(__file__ + '\\n')\n")
+APPLEDOUBLE = b"\x00\x05\x16\x07\x00\x02\x00\x00Mac OS X        " + bytes(range(32)) * 4
+
+
+def _write_entry(p, body, mod):
+    """one directory entry that is not a well-formed suite module: by what it IS (the name is the caller's business)"""
+    if body == "dangling":
+        os.symlink("user@host.1234:1700000000", p)
+    elif body == "binary":
+        with open(p, "wb") as fh:
+            fh.write(APPLEDOUBLE)
+    elif body == "isdir":
+        os.makedirs(p, exist_ok=True)
+    elif body == "text":
+        with open(p, "w") as fh:
+            fh.write("not python\n")
+    else:
+        with open(p, "w", encoding="utf-8") as fh:
+            fh.write("# -*- coding: utf-8 -*-\n" + IMPORT_MARKER + module_src(mod))
+
+
 def render(d, path):
     """Write the directory layout `d` at `path` (created)."""
-    os.makedirs(path)
+    os.makedirs(path, exist_ok=True)
     if d.get("noise"):
         with open(os.path.join(path, "__init__.py"), "w") as fh:
             fh.write("import lemoncheesecake.api as lcc\n@lcc.test('never')\ndef never():\n    pass\n")
@@ -812,7 +965,12 @@ def render(d, path):
             fh.write("not python\n")
         os.makedirs(os.path.join(path, "__pycache__"), exist_ok=True)
     for m in d["mods"]:
+        if m.get("broken") in ("binary", "dangling", "isdir"):
+            _write_entry(os.path.join(path, m["stem"] + ".py"), m["broken"], None)
+            continue
         with open(os.path.join(path, m["stem"] + ".py"), "w", encoding="utf-8") as fh:
             fh.write("# -*- coding: utf-8 -*-\n" + module_src(m))
+    for dr in d.get("drops") or []:
+        _write_entry(os.path.join(path, dr["name"]), dr["body"], dr.get("mod"))
     for s in d["dirs"]:
         render(s, os.path.join(path, s["name"]))
